@@ -83,7 +83,7 @@ for _ao in (False, True):
   for _pk in ('propka', None):
    for _cif in (False, True):
     contract(
-        "pdb2pqr.main:non_trivial", ["C01", "C02", "C03", "C04", "C06", "C09", "C12"],
+        "pdb2pqr.main:non_trivial", ["C01", "C02", "C03", "C04", "C05", "C06", "C09", "C12", "C13"],
         params={"args": ARGS(assign_only=Const(_ao), pka_method=Const(_pk)), "biomolecule": BIOMOL(),
                 "ligand": Const(None), "definition": Obj("Definition"), "is_cif": Const(_cif)},
         requires=[],
@@ -111,6 +111,14 @@ for _ao in (False, True):
             "abs(biomolecule.residues[0].charge - round(biomolecule.residues[0].charge)) <= Fraction(1, 1000)",
             # ---- C09: the naming scheme is applied after charges are final and only when asked for
             "iff(n_calls('apply_name_scheme') == 1, args.ffout is not None)",
+            # ---- C13: disulfide detection looks at the REPAIRED structure (a rebuilt SG counts), exactly once, and before
+            # anything that depends on it - debumping, titration, hydrogen addition (a bridged cysteine gets no HG back)
+            "implies(not args.assign_only, n_calls('update_ss_bridges') == 1)",
+            "before_all('repair_heavy', ['update_ss_bridges'])",
+            "before_all('update_ss_bridges', ['debump_biomolecule', 'apply_pka_values', 'add_hydrogens', 'set_states'])",
+            # ---- C03/C05: hydrogens are added after the heavy atoms are complete and before they are optimised
+            "before_all('repair_heavy', ['add_hydrogens']) and before_all('add_hydrogens', ['optimize_hydrogens', 'cleanup'])",
+            "before_all('cleanup', ['set_states'])",
         ],
         raises={"ValueError": "True"},
         trace=TRACE,
